@@ -460,9 +460,13 @@ def finalize_iteration(net, niter, residual_norm, nonlinear_method, errors, tols
         alpha_used = get_net_option(net, "alpha")
         errors_increased = set_damping_factor(net, niter, errors)
         logger.debug("alpha: %s" % get_net_option(net, "alpha"))
+        # a full step that fulfils all tolerances is accepted as a whole: restoring single variables
+        # would leave a mix of two iterates (e.g. new branch flows with old slack mass flows)
+        accepted = alpha_used == 1 and get_net_option(net, "alpha") == 1 and residual_norm <= tol_res \
+            and all(error[niter] <= tol for error, tol in zip(errors.values(), tols))
         for error_increased, var, val, pit, f in zip(errors_increased, solver_vars, vals_old,
                                                   pit_names, filtered):
-            if error_increased:
+            if error_increased and not accepted:
                 if f is None:
                 # todo: not working in bidirectional mode as bidirectional is not distinguishing \
                 #  between hydraulics and heat transfer active pit
